@@ -50,7 +50,12 @@ func refPow(x, e, prim, m int) int {
 	return r
 }
 
-func verifElem(m int) int { return int(zv.Uint16()) & (1<<uint(m) - 1) }
+func verifElem(m int) int {
+	if m <= 8 {
+		return int(zv.Byte()) & (1<<uint(m) - 1)
+	}
+	return int(zv.Uint16()) & (1<<uint(m) - 1)
+}
 
 // VerifC04Mul: Multiply(a, b) for concrete a in [lo, hi) and every b at once; also commutativity
 // of the table product.
@@ -189,4 +194,33 @@ func VerifC04Decode(field, k, r, errMask int) {
 		zv.Assert(ok, "Decode did not restore the code word")
 	}
 	zv.Reach("decode")
+}
+
+// VerifC04DecodeZero: the all-zero code word of length n with r parity symbols, corrupted at up to
+// three given positions (negative = unused) with free non-zero magnitudes: Decode must restore
+// zeros. Full-length words (n = |F|-1) and position 0 are reachable this way; that the decoder's
+// treatment of an error pattern does not depend on the data is a property of linear codes, not
+// something this harness proves.
+func VerifC04DecodeZero(field, n, r, p1, p2, p3 int) {
+	g := verifGF(field)
+	word := make([]int, n)
+	nerr := 0
+	for _, p := range []int{p1, p2, p3} {
+		if p >= 0 {
+			e := verifElem(g.m)
+			zv.Assume(e != 0)
+			word[p] ^= e
+			nerr++
+		}
+	}
+	err := NewReedSolomonDecoder(g.f).Decode(word, r)
+	if nerr <= r/2 {
+		zv.Assert(err == nil, "Decode failed although the number of errors is within the capacity")
+		ok := true
+		for i := range word {
+			ok = zv.And(ok, word[i] == 0)
+		}
+		zv.Assert(ok, "Decode did not restore the code word")
+	}
+	zv.Reach("decodezero")
 }
